@@ -472,6 +472,27 @@ def gen_seqs(rng, tier):
         for a2 in UPDATE_OPS:
             for x, y in [(t1, t2), (t1, b""), (b"", t1), (t1, t1)]:
                 seqs.append([tagged(rng, a1, x), tagged(rng, a2, y), tagged(rng, rng.choice(UPDATE_OPS), b"")])
+    # the SAME operation twice on one client with argument tuples that are equal or differ in exactly one name / version
+    # position: every call issues its own request for its own target (nothing may be answered from a table keyed by part of
+    # the tuple)
+    for op in OP_NAMES:
+        if op == "GetPulumiAccountDetails":
+            continue
+        roles, _ = OPS[op]
+        base_s, base_n = mk_args(rng, op)
+        pos = [i for i, r in enumerate(roles) if r in "NV"]
+        variants = [list(base_s)]
+        for i in pos:
+            v = list(base_s)
+            v[i] = rng.choice([x for x in PLAIN if x != base_s[i]] or PLAIN)
+            variants.append(v)
+        for v in variants:
+            seqs.append([call(op, list(base_s), list(base_n), b"tok", [], FINALS_OK[0]),
+                         call(op, v, list(base_n), b"tok", [], FINALS_OK[0])])
+        if len(variants) > 2:
+            seqs.append([call(op, variants[1], list(base_n), b"tok", [], FINALS_OK[0]),
+                         call(op, variants[2], list(base_n), b"tok", [], FINALS_OK[0]),
+                         call(op, list(base_s), list(base_n), b"tok", [], FINALS_OK[0])])
     # random sequences of 2..4 operations (updates over-represented); also on a client without a token
     for _ in range(1200 if thorough else 150):
         tok = rng.choice(TOKENS)
